@@ -1,6 +1,518 @@
-//! C08: not implemented yet.
-use crate::util::Args;
-pub fn main(_a: &Args) {
-    eprintln!("c08: not implemented");
-    std::process::exit(2);
+//! C08: refused saves leave the target untouched; saving in place keeps lazily loaded data.
+//! Scenarios: (refusal kinds) x (what was at the target before), loaded fonts with store cells in
+//! every state, saves over the source directory.  Every case is printed as a Gallina `SCase`
+//! (font abstraction, target, sandbox before, observed outcome, sandbox after) for the model,
+//! together with the verdict of the property oracle.
+#[path = "save_common.rs"]
+pub mod common;
+use crate::util::*;
+use common::*;
+use norad::{Font, FormatVersion, Glyph};
+use std::collections::BTreeSet;
+use std::fmt::Write as _;
+use std::path::{Path, PathBuf};
+
+#[derive(Clone, Copy, Debug, PartialEq)]
+pub enum Prior {
+    Absent,
+    EmptyDir,
+    OtherUfo,
+    LargerUfo,
+    PlainFile,
+    NestedJunk,
+    NoParent,
+}
+pub const PRIORS: [Prior; 6] =
+    [Prior::Absent, Prior::EmptyDir, Prior::OtherUfo, Prior::LargerUfo, Prior::PlainFile, Prior::NestedJunk];
+
+pub fn make_prior(target: &Path, p: Prior, r: &mut Rng) {
+    match p {
+        Prior::Absent | Prior::NoParent => {}
+        Prior::EmptyDir => std::fs::create_dir_all(target).unwrap(),
+        Prior::OtherUfo => {
+            let mut rc = Recipe::plain();
+            rc.info = true;
+            rc.kerning = 1;
+            rc.layers[0].glyphs.push(GlyphR { name: "old".into(), objlibs: false, width: 5 });
+            build_font(&rc).0.save(target).unwrap();
+        }
+        Prior::LargerUfo => {
+            let mut rc = Recipe::random_valid(r);
+            rc.info = true;
+            rc.lib = true;
+            rc.groups = 1;
+            rc.kerning = 1;
+            rc.features = 1;
+            rc.layers.push(LayerR {
+                name: "prior layer".into(),
+                color: true,
+                lib: true,
+                glyphs: vec![GlyphR { name: "p".into(), objlibs: false, width: 1 }],
+            });
+            rc.data = vec![("old/keep.bin".into(), b"precious".to_vec()), ("zz.txt".into(), b"zz".to_vec())];
+            rc.images = vec![("old.png".into(), PNG.to_vec())];
+            build_font(&rc).0.save(target).unwrap();
+        }
+        Prior::PlainFile => std::fs::write(target, b"i am a file").unwrap(),
+        Prior::NestedJunk => {
+            std::fs::create_dir_all(target.join("a/b/c")).unwrap();
+            std::fs::create_dir_all(target.join("glyphs")).unwrap();
+            std::fs::create_dir_all(target.join("data")).unwrap();
+            std::fs::write(target.join("a/b/c/deep.txt"), b"deep").unwrap();
+            std::fs::write(target.join("metainfo.plist"), b"garbage").unwrap();
+            std::fs::write(target.join("glyphs/junk.glif"), b"junk").unwrap();
+            std::fs::write(target.join("data/keep.me"), b"keep").unwrap();
+            std::fs::write(target.join("precious"), b"x").unwrap();
+        }
+    }
+}
+
+pub struct CaseOut {
+    pub gallina: String,
+    pub json: String,
+    pub oracle_ok: bool,
+}
+
+/// everything that happens to one font before it is saved
+pub struct Prepared {
+    pub font: Font,
+    pub shadow: Shadow,
+    pub groups_ok: bool,
+    pub info_valid: bool,
+    pub loaded_from: Option<Vec<String>>,
+    /// store entries that came from disk and were neither removed nor overwritten: (image?, key)
+    pub preserve: BTreeSet<(bool, String)>,
+    pub notes: Vec<String>,
+}
+
+fn comps(s: &str) -> Vec<String> {
+    split_rel(s)
+}
+
+/// write a source UFO into sb/src.ufo, load it, access / modify things
+pub fn prepare_loaded(sb: &Path, r: &mut Rng, allow_bad_files: bool) -> Prepared {
+    let mut notes = vec![];
+    let mut rc = Recipe::random_valid(r);
+    if rc.data.is_empty() && rc.images.is_empty() || r.chance(2, 3) {
+        rc.data = pick_keys(r, &["a.txt", "b.bin", "d/e.bin", "d/f/g", "q/r/s/t.dat", "Z"], 4, false);
+        rc.images = pick_keys(r, &["i.png", "j.png", "K.PNG"], 3, true);
+    }
+    let src = sb.join("src.ufo");
+    build_font(&rc).0.save(&src).unwrap();
+    // files norad did not write itself
+    if r.chance(1, 3) {
+        std::fs::create_dir_all(src.join("data/raw/deep")).unwrap();
+        std::fs::write(src.join("data/raw/deep/x.bin"), b"\x00\x01raw").unwrap();
+        std::fs::write(src.join("data/empty"), b"").unwrap();
+    }
+    if allow_bad_files && r.chance(1, 3) {
+        std::fs::create_dir_all(src.join("images")).unwrap();
+        std::fs::write(src.join("images/notpng.png"), b"GIF89a").unwrap();
+        notes.push("source has images/notpng.png without the PNG signature".into());
+    }
+    let font = Font::load(&src).unwrap();
+    let mut shadow = Shadow::opened(&font, &comps("src.ufo"));
+    let mut preserve = BTreeSet::new();
+    for k in shadow.data.keys() {
+        preserve.insert((false, k.clone()));
+    }
+    for k in shadow.images.keys() {
+        preserve.insert((true, k.clone()));
+    }
+    let mut p = Prepared { font, shadow: Shadow::default(), groups_ok: true, info_valid: true, loaded_from: Some(comps("src.ufo")), preserve, notes };
+    // access k of n entries
+    let dk: Vec<String> = shadow.data.keys().cloned().collect();
+    let ik: Vec<String> = shadow.images.keys().cloned().collect();
+    let mode = r.below(4); // 0 none, 1 some, 2 all, 3 some
+    for k in &dk {
+        if mode == 2 || (mode != 0 && r.chance(1, 2)) {
+            touch(&p.font, &mut shadow, false, k);
+        }
+    }
+    for k in &ik {
+        if mode == 2 || (mode != 0 && r.chance(1, 2)) {
+            touch(&p.font, &mut shadow, true, k);
+        }
+    }
+    p.shadow = shadow;
+    p
+}
+
+/// random edits of a loaded font ("modify the font")
+pub fn modify(p: &mut Prepared, r: &mut Rng) {
+    let n = r.below(4);
+    for _ in 0..n {
+        match r.below(8) {
+            0 => {
+                let mut g = Glyph::new(*r.pick(&["new", "N", "a", "x.y"]));
+                g.width = r.below(900) as f64;
+                p.font.default_layer_mut().insert_glyph(g);
+            }
+            1 => p.font.font_info.style_name = Some("Edited".into()),
+            2 => {
+                let _ = p.font.layers.new_layer(*r.pick(&["added", "Added Layer", "background"]));
+            }
+            3 => {
+                let names: Vec<String> = p.font.layers.names().skip(1).map(|n| n.to_string()).collect();
+                if !names.is_empty() {
+                    let n = r.pick(&names).clone();
+                    p.font.layers.remove(&n);
+                }
+            }
+            4 => {
+                let names: Vec<String> = p.font.default_layer().iter().map(|g| g.name().to_string()).collect();
+                if !names.is_empty() {
+                    let n = r.pick(&names).clone();
+                    p.font.default_layer_mut().remove_glyph(&n);
+                }
+            }
+            5 => {
+                // new data entry (may be refused by the store's own rules: then nothing changes)
+                // among them keys the store must refuse (`..`, `.`, trailing separator, a key that
+                // is an ancestor or a descendant of an existing one)
+                let k = *r.pick(&[
+                    "new.bin", "d/new.bin", "fresh/n.txt", "a.txt", "../../evil.txt", "./a.txt", "a.txt/", "d", "a.txt/under",
+                    "q/r", "/abs.bin", "d//e.bin",
+                ]);
+                let b = vec![r.below(256) as u8, 7, 7];
+                if p.font.data.insert(PathBuf::from(k), b.clone()).is_ok() {
+                    // the store keeps the key in its plain form (components re-joined)
+                    let plain: PathBuf = PathBuf::from(k).components().collect();
+                    let plain = plain.to_string_lossy().to_string();
+                    if plain != k {
+                        p.notes.push(format!("store accepted the key {:?} as {:?}", k, plain));
+                    }
+                    p.shadow.data.insert(plain.clone(), CellS::Loaded(b));
+                    p.preserve.remove(&(false, plain));
+                }
+            }
+            6 => {
+                let ks: Vec<String> = p.shadow.data.keys().cloned().collect();
+                if !ks.is_empty() && r.chance(1, 2) {
+                    let k = r.pick(&ks).clone();
+                    p.font.data.remove(Path::new(&k));
+                    p.shadow.data.remove(&k);
+                    p.preserve.remove(&(false, k));
+                }
+            }
+            _ => p.font.features = "languagesystem DFLT dflt;\n".into(),
+        }
+    }
+}
+
+/// inject the refusal kinds of `mask` (bit 0 version, 1 objectLibs key, 2 groups, 3 font info)
+pub fn inject(p: &mut Prepared, mask: u32, r: &mut Rng) {
+    if mask & 1 != 0 {
+        p.font.meta.format_version = if r.chance(1, 2) { FormatVersion::V1 } else { FormatVersion::V2 };
+    }
+    if mask & 2 != 0 {
+        p.font.lib.insert("public.objectLibs".into(), plist::Value::Dictionary(Default::default()));
+    }
+    if mask & 4 != 0 {
+        apply_groups(&mut p.font, 3);
+        p.groups_ok = false;
+    }
+    if mask & 8 != 0 {
+        let k = 1 + r.below(4) as u8;
+        apply_bad_info(&mut p.font, k);
+        p.info_valid = false;
+        p.notes.push(format!("invalid font info kind {}", k));
+    }
+}
+
+/// the refusal the property predicts, from the recipe side only
+pub fn expected_refusal(p: &Prepared, before: &Snap) -> Option<&'static str> {
+    if p.font.meta.format_version != FormatVersion::V3 {
+        return Some("Downgrade");
+    }
+    if p.font.lib.contains_key("public.objectLibs") {
+        return Some("PreexistingObjLibs");
+    }
+    if !p.groups_ok {
+        return Some("InvalidGroups");
+    }
+    if !p.info_valid {
+        return Some("InvalidFontInfo");
+    }
+    let bad = |image: bool, root: &[String], key: &str, c: &CellS| -> bool {
+        match c {
+            CellS::Error => true,
+            CellS::Loaded(_) => false,
+            CellS::NotLoaded => {
+                let mut q = root.to_vec();
+                q.push(if image { "images".into() } else { "data".into() });
+                q.extend(split_rel(key));
+                match before.get(&q.join("/")) {
+                    Some(Some(b)) => image && !is_png(b),
+                    _ => true,
+                }
+            }
+        }
+    };
+    for (k, c) in &p.shadow.data {
+        if bad(false, &p.shadow.data_root, k, c) {
+            return Some("InvalidStoreEntry");
+        }
+    }
+    for (k, c) in &p.shadow.images {
+        if bad(true, &p.shadow.images_root, k, c) {
+            return Some("InvalidStoreEntry");
+        }
+    }
+    None
+}
+
+pub fn fresh_sandbox(out: &Path, tag: &str, idx: u64) -> PathBuf {
+    let sb = out.join(format!("{}_{}", tag, idx));
+    let _ = std::fs::remove_dir_all(&sb);
+    std::fs::create_dir_all(sb.join("zone")).unwrap();
+    std::fs::write(sb.join("bystander.txt"), b"do not touch").unwrap();
+    std::fs::write(sb.join("zone/sibling.txt"), b"nor this").unwrap();
+    std::fs::create_dir_all(sb.join("zone/t.ufo.bak")).unwrap();
+    std::fs::write(sb.join("zone/t.ufo.bak/metainfo.plist"), b"backup").unwrap();
+    sb
+}
+
+/// reference save of a clone into a separate sandbox with the same shape; returns its snapshot
+pub fn reference_save(font: &Font, out: &Path, idx: u64, target_rel: &[String], sb: &Path) -> (Snap, Snap, bool) {
+    let rsb = out.join(format!("ref_{}", idx));
+    let _ = std::fs::remove_dir_all(&rsb);
+    let rt = rsb.join(target_rel.join("/"));
+    std::fs::create_dir_all(rt.parent().unwrap()).unwrap();
+    let keep = snapshot(sb);
+    let clone = font.clone();
+    let ok = matches!(catch(|| clone.save(&rt)), Ok(Ok(())));
+    let snap = snapshot(&rsb);
+    let abs_tree = snapshot(sb);
+    if abs_tree != keep {
+        restore(sb, &keep);
+    }
+    let _ = std::fs::remove_dir_all(&rsb);
+    (snap, abs_tree, ok)
+}
+
+pub struct SaveRun {
+    pub reftree: Snap,
+    pub ref_ok: bool,
+    pub before: Snap,
+    pub after: Snap,
+    pub obs: (String, String),
+    pub gallina: String,
+}
+
+/// reference save, snapshot, the real save, snapshot; the Gallina case
+pub fn run_save(p: &Prepared, out: &Path, idx: u64, sb: &Path, target_rel: &[String]) -> SaveRun {
+    let (reftree, abs_tree, ref_ok) = reference_save(&p.font, out, idx, target_rel, sb);
+    let before = snapshot(sb);
+    let target = sb.join(target_rel.join("/"));
+    let res = catch(|| p.font.save(&target));
+    let after = snapshot(sb);
+    let obs = obs_of(&res);
+    let abs = abstract_font(&AbsInput {
+        font: &p.font,
+        groups_ok: p.groups_ok,
+        info_valid: p.info_valid,
+        shadow: &p.shadow,
+        reftree: &reftree,
+        ref_target: target_rel,
+        sandbox: sb,
+        abs_tree: &abs_tree,
+    });
+    let gallina = format!("SCase {} {} {} {} {}", abs, gpath_of(target_rel), gsnap(&before), obs.0, gsnap(&after));
+    SaveRun { reftree, ref_ok, before, after, obs, gallina }
+}
+
+pub fn case(seed: u64, idx: u64, out: &Path, verbose: bool) -> CaseOut {
+    let mut r = Rng::new(seed.wrapping_mul(0x9E37_79B9_7F4A_7C15) ^ idx.wrapping_mul(0xD1B5_4A32_D192_ED03));
+    let sb = fresh_sandbox(out, "sb", idx);
+    let kind = match r.below(20) {
+        0..=8 => 0,   // refusal of a built or loaded font
+        9..=11 => 1,  // store entries that fail when forced
+        12..=16 => 2, // in place
+        _ => 3,       // plain valid save
+    };
+    let mut p;
+    let mut prior = Prior::Absent;
+    let mut in_place = false;
+    match kind {
+        0 => {
+            if r.chance(1, 3) {
+                p = prepare_loaded(&sb, &mut r, false);
+                modify(&mut p, &mut r);
+            } else {
+                let rc = Recipe::random_valid(&mut r);
+                let (font, shadow) = build_font(&rc);
+                p = Prepared { font, shadow, groups_ok: true, info_valid: true, loaded_from: None, preserve: BTreeSet::new(), notes: vec![] };
+            }
+            // mostly a single kind, sometimes several (the first in source order must win)
+            let mask = if r.chance(3, 4) { 1 << r.below(4) } else { 1 + r.below(15) as u32 };
+            inject(&mut p, mask, &mut r);
+            prior = PRIORS[(idx % 6) as usize];
+            in_place = p.loaded_from.is_some() && r.chance(1, 4);
+        }
+        1 => {
+            p = prepare_loaded(&sb, &mut r, true);
+            modify(&mut p, &mut r);
+            // damage the source after loading: entries not read yet can no longer be read
+            let src = sb.join("src.ufo");
+            let dk: Vec<String> = p.shadow.data.keys().cloned().collect();
+            let ik: Vec<String> = p.shadow.images.keys().cloned().collect();
+            match r.below(4) {
+                0 if !dk.is_empty() => {
+                    let k = r.pick(&dk).clone();
+                    let _ = std::fs::remove_file(src.join("data").join(&k));
+                    p.preserve.remove(&(false, k.clone()));
+                    p.notes.push(format!("data/{} deleted after load", k));
+                }
+                1 if !ik.is_empty() => {
+                    let k = r.pick(&ik).clone();
+                    let _ = std::fs::write(src.join("images").join(&k), b"not a png any more");
+                    p.preserve.remove(&(true, k.clone()));
+                    p.notes.push(format!("images/{} overwritten with non-PNG after load", k));
+                }
+                2 if !dk.is_empty() => {
+                    // replaced by a directory
+                    let k = r.pick(&dk).clone();
+                    let f = src.join("data").join(&k);
+                    let _ = std::fs::remove_file(&f);
+                    let _ = std::fs::create_dir_all(&f);
+                    p.preserve.remove(&(false, k.clone()));
+                    p.notes.push(format!("data/{} replaced by a directory after load", k));
+                }
+                _ => {}
+            }
+            // and sometimes look at an entry after the damage (cell goes to the error state)
+            if r.chance(1, 2) {
+                for k in &dk {
+                    if r.chance(1, 2) && p.shadow.data.get(k) == Some(&CellS::NotLoaded) {
+                        let mut sh = std::mem::take(&mut p.shadow);
+                        touch(&p.font, &mut sh, false, k);
+                        p.shadow = sh;
+                    }
+                }
+                for k in &ik {
+                    if r.chance(1, 2) && p.shadow.images.get(k) == Some(&CellS::NotLoaded) {
+                        let mut sh = std::mem::take(&mut p.shadow);
+                        touch(&p.font, &mut sh, true, k);
+                        p.shadow = sh;
+                    }
+                }
+            }
+            in_place = r.chance(1, 2);
+            prior = PRIORS[(idx % 6) as usize];
+        }
+        2 => {
+            p = prepare_loaded(&sb, &mut r, false);
+            modify(&mut p, &mut r);
+            in_place = true;
+        }
+        _ => {
+            if r.chance(1, 2) {
+                p = prepare_loaded(&sb, &mut r, false);
+                modify(&mut p, &mut r);
+            } else {
+                let mut rc = Recipe::random_valid(&mut r);
+                if r.chance(1, 6) && !rc.layers.is_empty() {
+                    // a late failure the property does not cover: glyph lib with public.objectLibs
+                    let li = r.below(rc.layers.len() as u64) as usize;
+                    rc.layers[li].glyphs.push(GlyphR { name: "late".into(), objlibs: true, width: 1 });
+                }
+                let (font, shadow) = build_font(&rc);
+                p = Prepared { font, shadow, groups_ok: true, info_valid: true, loaded_from: None, preserve: BTreeSet::new(), notes: vec![] };
+            }
+            prior = if r.chance(1, 10) { Prior::NoParent } else { PRIORS[(idx % 6) as usize] };
+        }
+    }
+    let target_rel: Vec<String> = if in_place {
+        comps("src.ufo")
+    } else if prior == Prior::NoParent {
+        comps("nozone/t.ufo")
+    } else {
+        comps("zone/t.ufo")
+    };
+    if !in_place {
+        make_prior(&sb.join(target_rel.join("/")), prior, &mut r);
+    }
+    let run = run_save(&p, out, idx, &sb, &target_rel);
+    // ------------------------------------------------------------ property oracle
+    let expect = expected_refusal(&p, &run.before);
+    let mut why: Vec<String> = vec![];
+    if let Some(v) = expect {
+        if run.obs.1 != v {
+            why.push(format!("expected refusal {} but the save returned {}", v, run.obs.1));
+        }
+        if run.before != run.after {
+            why.push(format!("refused save changed the file system: {}", snap_diff(&run.before, &run.after).join(", ")));
+        }
+    } else if ["Downgrade", "PreexistingObjLibs", "InvalidGroups", "InvalidFontInfo", "InvalidStoreEntry"].contains(&run.obs.1.as_str())
+        && run.before != run.after
+    {
+        why.push("refusal changed the file system".into());
+    }
+    let mut preserved = 0;
+    if in_place && run.obs.1 == "Saved" {
+        for (image, k) in &p.preserve {
+            let rel = format!("src.ufo/{}/{}", if *image { "images" } else { "data" }, k);
+            match (run.before.get(&rel), run.after.get(&rel)) {
+                (Some(Some(a)), Some(Some(b))) if a == b => preserved += 1,
+                (Some(Some(_)), _) => why.push(format!("in-place save lost or changed {}", rel)),
+                _ => {}
+            }
+        }
+    }
+    let oracle_ok = why.is_empty();
+    let mut json = String::new();
+    let _ = write!(
+        json,
+        "{{\"i\":{},\"kind\":{},\"prior\":{},\"in_place\":{},\"expected_refusal\":{},\"obs\":{},\"oracle_ok\":{},\"why\":{},\"preserved\":{},\"loaded\":{},\"notes\":{},\"changed\":{}}}",
+        idx,
+        kind,
+        json_str(&format!("{:?}", prior)),
+        in_place,
+        match expect {
+            Some(v) => json_str(v),
+            None => "null".into(),
+        },
+        json_str(&run.obs.1),
+        oracle_ok,
+        serde_json::to_string(&why).unwrap(),
+        preserved,
+        p.loaded_from.is_some(),
+        serde_json::to_string(&p.notes).unwrap(),
+        run.before != run.after
+    );
+    if verbose {
+        println!("case {}: kind={} prior={:?} in_place={} notes={:?}", idx, kind, prior, in_place, p.notes);
+        println!("expected refusal: {:?}; observed: {}", expect, run.obs.1);
+        println!("changes: {:?}", snap_diff(&run.before, &run.after));
+        println!("oracle: {}", if oracle_ok { "ok".to_string() } else { why.join("; ") });
+    }
+    let _ = std::fs::remove_dir_all(&sb);
+    CaseOut { gallina: run.gallina, json, oracle_ok }
+}
+
+pub fn main(a: &Args) {
+    std::fs::create_dir_all(&a.out).unwrap();
+    if let Some(rp) = &a.replay {
+        // replay file: "<seed> <index>"
+        let t = std::fs::read_to_string(rp).unwrap();
+        let mut it = t.split_whitespace();
+        let seed: u64 = it.next().unwrap().parse().unwrap();
+        let idx: u64 = it.next().unwrap().parse().unwrap();
+        let c = case(seed, idx, &a.out, true);
+        println!("{}", c.json);
+        return;
+    }
+    let n: u64 = if a.thorough() { 12000 } else { 600 };
+    let mut g = String::new();
+    let mut j = String::new();
+    for i in 0..n {
+        let c = case(a.seed, i, &a.out, false);
+        g.push_str(&c.gallina);
+        g.push('\n');
+        j.push_str(&c.json);
+        j.push('\n');
+    }
+    write_file(&a.out.join("cases.txt"), &g);
+    write_file(&a.out.join("oracle.jsonl"), &j);
 }
